@@ -152,4 +152,19 @@ PROPS = {
         quick=dict(checks=1500, timeout=900),
         thorough=dict(checks=20000, shards=16, timeout=3000),
     ),
+    "C15": dict(
+        run="^TestC15$",
+        level="exploration",
+        rule=("metamorphic pairs: a model-driven history H' of 12-45 (thorough: 70) API calls with the six prune jobs spliced in at generated positions (kind, minimum age 0 / 1 s / 1 h, batch 1 / 3 / 100) "
+              "is run, then the same history H without the jobs, on fresh state with identical clock and UUID seeds; the client-visible traces (status codes, Get results, pull results as "
+              "message#@attempt sets for pulls in which the model leaves the implementation no freedom, sizes for truncated pulls) must be equal; after every job no live topic / subscription, "
+              "outstanding delivery or message of an outstanding delivery may have disappeared (row-id comparison); convergence: the history ends with everything (or every other resource) deleted, "
+              "the clock passes the age threshold, and rounds of all 7 jobs + the dead-letter sweep in 3-8 generated orders and batch sizes must reach a round that deletes nothing, after which no "
+              "job may fail and no deleted / completed / expired / orphaned row may remain; non-trivial (pairs) = >=3 spliced jobs of which at least one deleted rows; distinct by hash of the history"),
+        assumptions=["subscription expiry and the dead-letter sweep are part of the history itself, not of the spliced maintenance (they have client-visible semantics of their own: C14, C06)",
+                     "after a rewinding seek that meets deliveries a prune-completed job may have removed, traces are no longer compared (README: acked messages are retained only until pruned); counted in excluded_by_construction",
+                     "virtual clock; SQLite only"],
+        quick=dict(checks=250, timeout=1200),
+        thorough=dict(checks=500, shards=16, timeout=3000),
+    ),
 }
